@@ -645,7 +645,11 @@ impl Ctx {
         if field(&resp, "idem") != "1" {
             self.viol_k("Model.norm (norm_idem evaluated)", json!({"input": req, "model": resp}));
         }
-        if m_sz && m_rt != m_norm {
+        let m_writes = m_ser != "err";
+        if m_sz != m_writes && t.depth_all() <= 128 {
+            self.viol_k("Model.serW vs serializable", json!({"input": req, "model": resp}));
+        }
+        if m_writes && m_rt != m_norm {
             self.viol_k("Model.de∘ser = norm (de_ser evaluated)", json!({"input": req, "model": resp}));
         }
         if !m_sk {
@@ -653,6 +657,9 @@ impl Ctx {
         }
         if !m_sz {
             self.rep.bump("tree_unserializable");
+        }
+        if m_sz && !m_writes {
+            self.rep.bump("tree_beyond_writer_nesting_limit");
         }
         let kv = t.to_kvalue();
         let hn = hnorm(t);
@@ -678,7 +685,7 @@ impl Ctx {
         // (K1) text layers
         let collision = has_key_collision(t);
         for fmt in FORMATS {
-            let expect_ok = m_sz && (*fmt != "toml" || m_toml);
+            let expect_ok = m_writes && (*fmt != "toml" || m_toml);
             let s = match self.libs.to_string(fmt, &kv) {
                 Err(p) => {
                     self.viol_d(&format!("C20:no-panic:{}.to_string", fmt), json!({"input": req, "panic": p}));
@@ -2411,6 +2418,11 @@ fn main() {
             .collect();
         cx.check_graph(&mut worker, &nodes);
     }
+    for n in [127usize, 128, 129, 130] {
+        // a chain of n distinct lists / maps: the writer's nesting limit on the graph
+        let nodes: Vec<String> = (0..n).map(|i| if i + 1 < n { format!("{} r{}", if i % 3 == 2 { "m" } else { "l" }, i + 1) } else { "l n1".to_string() }).collect();
+        cx.check_graph(&mut worker, &nodes);
+    }
     for g in [vec!["l n1 r0"], vec!["m r0"], vec!["l r1", "m n2 r0"], vec!["l r1 r2 r1", "l n1", "m r1"], vec!["l r1 r1", "l r2 r2", "l r3 r3", "l n7"]] {
         cx.check_graph(&mut worker, &g.iter().map(|x| x.to_string()).collect::<Vec<_>>());
     }
@@ -2487,14 +2499,21 @@ fn main() {
                 !matches!(worker.request(&line, Duration::from_secs(20)), kvh::worker::Reply::Ok(s) if s == "err")
             }
             "F-C20-5" => {
-                let mut t = T::I(1);
-                for _ in 0..128 {
-                    t = T::Tu(vec![t]);
+                // depth 128 through JSON, depth 82 through TOML: written, then not read back
+                let chain = |n: usize| {
+                    let mut t = T::I(1);
+                    for _ in 0..n - 1 {
+                        t = T::Tu(vec![t]);
+                    }
+                    T::M(vec![(T::S("a".into()), t)])
+                };
+                let mut fails = false;
+                for (fmt, n) in [("json", 128usize), ("toml", 82)] {
+                    if let Ok(Ok(txt)) = cx.libs.to_string(fmt, &chain(n).to_kvalue()) {
+                        fails |= !matches!(cx.libs.from_string(fmt, &txt), Ok(Ok(_)));
+                    } // a refusal by to_string is explicit: not a failure of the round trip
                 }
-                match cx.libs.to_string("json", &t.to_kvalue()) {
-                    Ok(Ok(txt)) => !matches!(cx.libs.from_string("json", &txt), Ok(Ok(_))),
-                    _ => false, // to_string refuses: the failure is explicit, the finding is repaired
-                }
+                fails
             }
             "F-C20-6" => matches!(cx.libs.from_string("json", "-9223372036854775809"), Ok(Ok(_))) || matches!(cx.libs.from_string("json", "18446744073709551616"), Ok(Ok(_))),
             "F-C20-2" => {
